@@ -113,6 +113,14 @@ Definition denote_base (p : pdesc) : prop :=
   | PLinEq cs xs k => mk_lin_eq cs xs k
   | PLinLe cs xs k => mk_lin_le cs xs k
   | PLinNe cs xs k => mk_lin_ne cs xs k
+  (* pushed by the reified lowering of Or / Not in fluent trees (repair of D3, Lower.reify) *)
+  | PCmpR op x y b => mk_cmp_reif op x y b
+  | PLinEqR cs xs k b => mk_lin_eq_reif cs xs k b
+  | PLinLeR cs xs k b => mk_lin_le_reif cs xs k b
+  | PLinNeR cs xs k b => mk_lin_ne_reif cs xs k b
+  | PAndR xs r => mk_band xs r
+  | POrR xs r => mk_bor xs r
+  | PNotR o r => mk_bnot o r
   end.
 
 Definition denote_route (p : rdesc) : prop :=
